@@ -643,6 +643,8 @@ func (x *extractor) emit() []byte {
 	b.WriteString("]\n\ndef table : AccessTable := ⟨accessTable, funcTable, typeTable⟩\n\n")
 	x.emitFlights(&b)
 	x.emitSharedAppends(&b)
+	x.emitGoSpawns(&b)
+	x.emitArgMutations(&b)
 	b.WriteString("end Gen\n")
 	return b.Bytes()
 }
@@ -1965,4 +1967,234 @@ func (x *extractor) emitSharedAppends(b *bytes.Buffer) {
 		fmt.Fprintf(os.Stderr, "translator: conc: shared append at %s: %s (%s)\n", c.pos, c.path, c.what)
 	}
 	fmt.Fprintf(b, "]\n\n/-- %d append sites on shared slices examined -/\ndef sharedAppendSites : Nat := %d\n\n", len(x.appCands), len(x.appCands))
+}
+
+// ---------------------------------------------------------------------------------------------
+// goroutine spawns: `go` statements and goroutine-spawning calls (errgroup.Group.Go,
+// sync.WaitGroup.Go) in the library's non-test code.
+
+func enclosingFuncs(f *ast.File) func(pos token.Pos) string {
+	return func(pos token.Pos) string {
+		for _, d := range f.Decls {
+			if fd, ok := d.(*ast.FuncDecl); ok && fd.Pos() <= pos && pos < fd.End() {
+				if fd.Recv != nil && len(fd.Recv.List) > 0 {
+					return "(" + types.ExprString(fd.Recv.List[0].Type) + ")." + fd.Name.Name
+				}
+				return fd.Name.Name
+			}
+		}
+		return "<package initialiser>"
+	}
+}
+
+func (x *extractor) emitGoSpawns(b *bytes.Buffer) {
+	var rows []string
+	for _, p := range x.pkgs {
+		for _, f := range p.files {
+			encl := enclosingFuncs(f)
+			ast.Inspect(f, func(n ast.Node) bool {
+				switch n := n.(type) {
+				case *ast.GoStmt:
+					rows = append(rows, fmt.Sprintf("⟨%s, %s, %s⟩", leanString(x.pos(n.Pos())), leanString(p.dir+"."+encl(n.Pos())), leanString("go statement")))
+				case *ast.CallExpr:
+					if sel, ok := n.Fun.(*ast.SelectorExpr); ok && (sel.Sel.Name == "Go" || sel.Sel.Name == "TryGo") {
+						if s, ok := p.info.Selections[sel]; ok && s.Kind() == types.MethodVal {
+							full := s.Obj().(*types.Func).FullName()
+							if strings.Contains(full, "errgroup") || strings.Contains(full, "sync.WaitGroup") {
+								rows = append(rows, fmt.Sprintf("⟨%s, %s, %s⟩", leanString(x.pos(n.Pos())), leanString(p.dir+"."+encl(n.Pos())), leanString(full)))
+							}
+						}
+					}
+				}
+				return true
+			})
+		}
+	}
+	for _, r := range rows {
+		fmt.Fprintln(os.Stderr, "translator: conc: goroutine spawn", r)
+	}
+	fmt.Fprintf(b, "/-- goroutines started by the library's own (non-test) code -/\ndef goSpawns : List GoSpawn := [%s]\n\n", strings.Join(rows, ",\n  "))
+}
+
+// ---------------------------------------------------------------------------------------------
+// in-place mutation of caller-shared arguments: a slice reached from a (non-receiver) parameter
+// that is an object callers share (pointer to a repository struct, interface value) — through
+// fields, type assertions, getter calls and local aliases — is sorted / reversed / compacted /
+// cleared / copied into / element-assigned / appended to.
+
+var inPlaceMutators = map[string]bool{"slices.Sort": true, "slices.SortFunc": true, "slices.SortStableFunc": true, "slices.Reverse": true,
+	"slices.Compact": true, "slices.CompactFunc": true, "slices.Delete": true, "slices.DeleteFunc": true, "slices.Insert": true, "slices.Replace": true,
+	"sort.Slice": true, "sort.SliceStable": true, "sort.Sort": true, "sort.Stable": true, "sort.Strings": true, "sort.Ints": true, "sort.Float64s": true}
+
+func (x *extractor) emitArgMutations(b *bytes.Buffer) {
+	var rows []string
+	for _, p := range x.pkgs {
+		for _, f := range p.files {
+			for _, d := range f.Decls {
+				fd, ok := d.(*ast.FuncDecl)
+				if !ok || fd.Body == nil {
+					continue
+				}
+				tainted := map[*types.Var]bool{}
+				for _, fl := range fd.Type.Params.List {
+					for _, nm := range fl.Names {
+						pv, ok := p.info.Defs[nm].(*types.Var)
+						if !ok {
+							continue
+						}
+						if _, isIface := pv.Type().Underlying().(*types.Interface); isIface || x.repoNamedStruct(pv.Type()) != nil && isRef(pv.Type()) {
+							tainted[pv] = true
+						}
+					}
+				}
+				if len(tainted) == 0 {
+					continue
+				}
+				var derives func(e ast.Expr) bool
+				derives = func(e ast.Expr) bool {
+					switch e := e.(type) {
+					case *ast.Ident:
+						v, ok := p.info.Uses[e].(*types.Var)
+						return ok && tainted[v]
+					case *ast.ParenExpr:
+						return derives(e.X)
+					case *ast.TypeAssertExpr:
+						return derives(e.X)
+					case *ast.StarExpr:
+						return derives(e.X)
+					case *ast.IndexExpr:
+						return derives(e.X)
+					case *ast.SliceExpr:
+						return derives(e.X)
+					case *ast.SelectorExpr:
+						if s, ok := p.info.Selections[e]; ok && s.Kind() == types.FieldVal {
+							return derives(e.X)
+						}
+					case *ast.CallExpr:
+						if sel, ok := e.Fun.(*ast.SelectorExpr); ok {
+							if s, ok := p.info.Selections[sel]; ok && s.Kind() == types.MethodVal && isRef(p.info.TypeOf(e)) {
+								return derives(sel.X)
+							}
+						}
+					}
+					return false
+				}
+				for round := 0; round < 3; round++ {
+					ast.Inspect(fd.Body, func(n ast.Node) bool {
+						as, ok := n.(*ast.AssignStmt)
+						if !ok {
+							return true
+						}
+						for i, l := range as.Lhs {
+							id, ok := l.(*ast.Ident)
+							if !ok {
+								continue
+							}
+							var r ast.Expr
+							if len(as.Rhs) == len(as.Lhs) {
+								r = as.Rhs[i]
+							} else if i == 0 && len(as.Rhs) == 1 {
+								r = as.Rhs[0]
+							}
+							if r == nil || !derives(r) || !isRef(p.info.TypeOf(r)) && len(as.Rhs) == len(as.Lhs) {
+								continue
+							}
+							if v, ok := p.info.Defs[id].(*types.Var); ok {
+								tainted[v] = true
+							} else if v, ok := p.info.Uses[id].(*types.Var); ok && !isPkgLevel(v) {
+								tainted[v] = true
+							}
+						}
+						return true
+					})
+				}
+				isSlice := func(e ast.Expr) bool {
+					t := p.info.TypeOf(e)
+					if t == nil {
+						return false
+					}
+					switch t.Underlying().(type) {
+					case *types.Slice, *types.Map:
+						return true
+					}
+					return false
+				}
+				fn := p.dir + "." + enclosingFuncs(f)(fd.Body.Pos())
+				// slices the function itself (re)assigns are owned by it (objects under construction)
+				owned := map[string]bool{}
+				ast.Inspect(fd.Body, func(n ast.Node) bool {
+					if as, ok := n.(*ast.AssignStmt); ok {
+						for i, l := range as.Lhs {
+							if _, isIdx := l.(*ast.IndexExpr); isIdx {
+								continue
+							}
+							if len(as.Rhs) == len(as.Lhs) {
+								if c, ok := as.Rhs[i].(*ast.CallExpr); ok {
+									if id, ok := c.Fun.(*ast.Ident); ok && id.Name == "make" {
+										owned[types.ExprString(l)] = true
+									}
+								}
+								if _, ok := as.Rhs[i].(*ast.CompositeLit); ok {
+									owned[types.ExprString(l)] = true
+								}
+							}
+						}
+					}
+					return true
+				})
+				add := func(pos token.Pos, what string, e ast.Expr) {
+					if owned[types.ExprString(e)] {
+						return
+					}
+					rows = append(rows, fmt.Sprintf("⟨%s, %s, %s, %s⟩", leanString(x.pos(pos)), leanString(fn), leanString(what), leanString(types.ExprString(e))))
+				}
+				ast.Inspect(fd.Body, func(n ast.Node) bool {
+					switch n := n.(type) {
+					case *ast.CallExpr:
+						if len(n.Args) == 0 {
+							return true
+						}
+						name := ""
+						switch fun := n.Fun.(type) {
+						case *ast.Ident:
+							if _, isB := p.info.Uses[fun].(*types.Builtin); isB {
+								name = fun.Name
+							}
+						case *ast.SelectorExpr:
+							if o, ok := p.info.Uses[fun.Sel].(*types.Func); ok {
+								name = o.FullName()
+							}
+						}
+						a0 := n.Args[0]
+						switch {
+						case inPlaceMutators[name], name == "clear", name == "copy":
+							if derives(a0) && isSlice(a0) {
+								add(n.Pos(), name, a0)
+							}
+						case name == "append":
+							w := &walker{x: x, p: p}
+							if derives(a0) && isSlice(a0) && !w.clipped(a0) {
+								add(n.Pos(), "append (spare capacity)", a0)
+							}
+						}
+					case *ast.AssignStmt:
+						for _, l := range n.Lhs {
+							if ix, ok := l.(*ast.IndexExpr); ok && derives(ix.X) && isSlice(ix.X) {
+								add(n.Pos(), "element assignment", ix.X)
+							}
+						}
+					case *ast.IncDecStmt:
+						if ix, ok := n.X.(*ast.IndexExpr); ok && derives(ix.X) && isSlice(ix.X) {
+							add(n.Pos(), "element assignment", ix.X)
+						}
+					}
+					return true
+				})
+			}
+		}
+	}
+	for _, r := range rows {
+		fmt.Fprintln(os.Stderr, "translator: conc: in-place mutation of a caller-shared argument", r)
+	}
+	fmt.Fprintf(b, "/-- in-place mutations of slices reached from caller-shared parameter objects -/\ndef sharedArgMutations : List ArgMutation := [%s]\n\n", strings.Join(rows, ",\n  "))
 }
